@@ -68,9 +68,13 @@ def schemeHost (base : Str) : Str :=
   | ':' :: _ => []
   | _ => schemeHostAux [] base
 
+/-- `urlutils.basename` of a path or of a URL (then: of the URL's path) -/
+def urlBasenameU (s : Str) : Str := urlBasename (s.drop (schemeHost s).length)
+
 /-- `urlutils.join(base, extra)` on the domain used here: `extra` is a `/`-joined
-list of plain components; an absolute `extra` replaces the path of `base` -/
+list of plain components; an absolute `extra` replaces the path of `base`, a URL all of it -/
 def joinPath (base extra : Str) : Str :=
+  if !(schemeHost extra).isEmpty then extra else      -- a full URL (the no-name section's extra path) replaces everything
   match extra with
   | '/' :: _ => schemeHost base ++ extra
   | _ =>
@@ -268,7 +272,7 @@ def ignoreParentsN : Str := ['i', 'g', 'n', 'o', 'r', 'e', '_', 'p', 'a', 'r', '
 /-- `self.locals` -/
 def localOf (s : LocSection) (name : Str) : Option Str :=
   if name = relpathN then some s.extra
-  else if name = basenameN then some (urlBasename s.extra)
+  else if name = basenameN then some (urlBasenameU s.extra)
   else if name = branchnameN then some s.branch
   else none
 
@@ -388,7 +392,7 @@ def segBranch (loc : Str) : BranchRes :=
 def branchOf (loc : Str) : Str :=
   match segBranch loc with
   | .fromParam b => b
-  | _ => urlBasename loc
+  | _ => urlBasenameU loc
 
 /-- `_get_matching_sections`: `(length, section)` — the no-name section first -/
 def matchingSections (noName : Option (List (Str × Str))) (secs : List PSec) (location : Str) :
